@@ -130,7 +130,35 @@ def cases(quick, rng):
             else:
                 ct, ev = key.split('|')
                 C.append({'f': 'qk', 'a': [ct, ev, v], 'opt': opt})
+    # QuadKids competition types by NAME (the alias table both languages carry), in several spellings - the grid above
+    # reaches the tables through their codes only (seed C18-h: the port stripped '-' and '_' from the name and lost the one
+    # alias that contains a hyphen)
+    NAMES = {'Wessex League': 'QKWL', 'Wessex League (U13)': 'QKWLU13', 'Quad Kids Secondary': 'QKSEC', 'Quad Kids Primary': 'QKPRI',
+             'Quad Kids Start': 'QKSTA', 'Quad Kids Club': 'QKCLUB', 'Quad Kids Club U13': 'QKCLU13', 'Quad Kids Club U9': 'QKCLU9',
+             'Quad Kids Pre-Start': 'QKPRE'}
+    try:
+        live = common_live_alias_names()
+    except Exception:
+        live = {}
+    for name, code in sorted(set(NAMES.items()) | set(live.items())):
+        evs = sorted({k.split('|')[1] for k in J['qkids'] if k.split('|')[0] == code})
+        for sp in (name, name.upper(), name.lower(), name.replace(' ', ''), name.replace(' ', '').upper(), ' ' + name + ' ', name.replace(' ', '  ')):
+            for ev in evs[:3]:
+                row = J['qkids']['%s|%s' % (code, ev)]
+                for c in (row['base'], row['base'] + 17 * row['step'] * (-1 if row.get('run') else 1), row['base'] + 40 * row['step'] * (-1 if row.get('run') else 1)):
+                    v = junior.fmt(int(c), 'text')
+                    if v is not None:
+                        C.append({'f': 'qk', 'a': [sp, ev, v]})
     return C
+
+
+def common_live_alias_names():
+    """alias names the live Python table carries (inputs only - the oracle is the agreement of the two languages)"""
+    common.use_repo()
+    import sys as _s
+    import athlib
+    m = _s.modules.get('athlib.qkids_score')
+    return {k: v for k, v in getattr(m, '_compTypeMap', {}).items() if isinstance(k, str) and isinstance(v, str)}
 
 
 def input_class(c):
